@@ -20,7 +20,7 @@ META = {
         "names); SIGINT 0.2-1.0 s after every service has beaten >= 4 times (after a forced gc.collect inside "
         "the services); three daemons per run get a configuration with 60-200 services and run under line-level delay injection "
         "(installed through a sitecustomize module of the harness); kind=invalid: unknown section, missing pipeline, constructor error, YAML syntax error, "
-        "unknown tag, Python config raising, unknown / missing extension, missing file; kind=failing: a service "
+        "unknown tag, Python config raising, an element that is not the last one whose constructor raises TypeError / KeyError / ValueError when the pipeline is linked, a pipeline section that is not a list, unknown / missing extension (also a byte-compiled configuration as .pyc), missing file; kind=failing: a service "
         "raising or returning a value after k beats. Non-trivial = every daemon run; distinct by configuration."
     ),
     "assumptions": [
@@ -32,7 +32,7 @@ META = {
     "max_jobs": 16,
 }
 LOG_LINE = re.compile(r"^\d{4}-\d{2}-\d{2} [\d:]+\s+\(\d+\) .*(runner aborted|runner terminated|aborted)", re.M)
-SERVICE_TAGS = {"VSvcCtrl": "trio", "VSvcDeco": "asyncio", "VSvcThread": "threading", "VSvcPool": "trio", "VSvcEmpty": "trio", "VSvcWaiter": "asyncio"}
+SERVICE_TAGS = {"VSvcTrioDeco": "trio", "VSvcCtrl": "trio", "VSvcDeco": "asyncio", "VSvcThread": "threading", "VSvcPool": "trio", "VSvcEmpty": "trio", "VSvcWaiter": "asyncio"}
 
 
 def plan(tier, seed):
@@ -52,7 +52,7 @@ def gen_pipeline(rnd):
         elif i == 0:
             cls = rnd.choice(["VSvcCtrl", "VSvcCtrl", "VSvcDeco", "VSvcThread", "VDeco", "LinearController"])
         else:
-            cls = rnd.choice(["VSvcDeco", "VSvcThread", "VDeco", "Standardiser", "Logger", "VSvcDeco", "VSvcWaiter"])
+            cls = rnd.choice(["VSvcDeco", "VSvcThread", "VDeco", "Standardiser", "Logger", "VSvcDeco", "VSvcWaiter", "VSvcTrioDeco"])
         kwargs = {}
         label = None
         if cls in SERVICE_TAGS:
@@ -76,7 +76,7 @@ def yaml_text(rnd, elems, logging, extra):
     lines.append("pipeline:")
     for cls, label, kwargs in elems:
         items = ", ".join("%s: %s" % (k, v) for k, v in kwargs.items())
-        if cls in ("VSvcCtrl", "VSvcDeco", "VSvcThread", "VSvcPool", "VSvcEmpty", "VSvcWaiter", "VDeco", "VPool") and rnd.random() < 0.35:
+        if cls in ("VSvcCtrl", "VSvcDeco", "VSvcTrioDeco", "VSvcThread", "VSvcPool", "VSvcEmpty", "VSvcWaiter", "VDeco", "VPool") and rnd.random() < 0.35:
             lines.append("  - {__type__: vplug.%s%s}" % (cls, (", " + items) if items else ""))
         elif items:
             lines.append("  - !%s {%s}" % (cls, items))
@@ -88,7 +88,7 @@ def yaml_text(rnd, elems, logging, extra):
 
 
 def python_text(rnd, elems):
-    imports = ["from vplug import VSvcCtrl, VSvcDeco, VSvcThread, VSvcPool, VSvcEmpty, VSvcWaiter, VDeco, VPool",
+    imports = ["from vplug import VSvcCtrl, VSvcDeco, VSvcTrioDeco, VSvcThread, VSvcPool, VSvcEmpty, VSvcWaiter, VDeco, VPool",
                "from cobald.controller.linear import LinearController", "from cobald.decorator.standardiser import Standardiser",
                "from cobald.decorator.logger import Logger"]
     parts = []
@@ -103,22 +103,27 @@ def python_text(rnd, elems):
     return "\n".join(imports + body) + "\n"
 
 
-def gen_many(rnd):
+def gen_many(rnd, trio_heavy=None, inject=True):
     """A valid configuration with many cheap services, run under line-level delay injection: construction in the
     asyncio thread races with the accept loop's polling in the trio thread."""
-    n = rnd.choice([60, 120, 200])
-    elems = [["VSvcDeco" if i % 3 else "VSvcThread", "svc%d" % i, {"label": "svc%d" % i, "period": 0.2}] for i in range(n - 1)]
+    n = rnd.choice([60, 120, 200]) if inject else 200
+    if trio_heavy if trio_heavy is not None else rnd.random() < 0.5:
+        # mostly trio services: they all reach the trio runner within one sweep of the accept loop
+        elems = [["VSvcTrioDeco" if i % 5 else "VSvcDeco", "svc%d" % i, {"label": "svc%d" % i, "period": 0.2}] for i in range(n - 1)]
+    else:
+        elems = [["VSvcDeco" if i % 3 else "VSvcThread", "svc%d" % i, {"label": "svc%d" % i, "period": 0.2}] for i in range(n - 1)]
     elems.append(["VSvcPool", "svc%d" % (n - 1), {"label": "svc%d" % (n - 1), "period": 0.2}])
     fmt = rnd.choice(["yaml", "python"])
     text = yaml_text(rnd, elems, False, False) if fmt == "yaml" else python_text(rnd, elems)
     return {"kind": "valid", "format": fmt, "elems": elems, "suffix": ".yaml" if fmt == "yaml" else ".py", "logging": False, "extra": False,
             "signal_after": 0.3, "defect": None, "missing_file": False, "slow_init": False, "text": text, "many": True,
-            "inject": {"seed": rnd.randint(0, 10**6), "p_yield": 0.5, "p_sleep": 0.02, "max_sleep": 0.002}}
+            # without injection the whole configuration is constructed between two sweeps of the accept loop
+            "inject": {"seed": rnd.randint(0, 10**6), "p_yield": 0.5, "p_sleep": 0.02, "max_sleep": 0.002} if inject else None}
 
 
 def gen_case(rnd, spec):
     if spec["case_index"] == 1 and spec["shard"] in (2, 3, 4):
-        return gen_many(rnd)
+        return gen_many(rnd, trio_heavy=True if spec["shard"] == 2 else None, inject=spec["shard"] != 2)
     kind = ["valid", "failing", "invalid", "valid"][(spec["case_index"] + spec["shard"]) % 4] if rnd.random() < 0.8 else rnd.choice(["valid", "invalid", "failing"])
     elems = gen_pipeline(rnd)
     fmt = rnd.choice(["yaml", "yaml", "python"])
@@ -133,6 +138,11 @@ def gen_case(rnd, spec):
             if len(elems) == 1:
                 elems.insert(0, None)
             elems[0] = ["VSvcThread", "svcT", {"label": "svcT", "period": 0.05}]
+    if spec["case_index"] == 2 and spec["shard"] in (9, 10):
+        forced = "broken_element" if spec["shard"] == 9 else "pipeline_not_a_list"
+        kind, fmt = "invalid", "yaml"
+        if forced == "broken_element":
+            elems.insert(0, ["VSvcDeco", "svcB", {"label": "svcB", "period": 0.05}])
     slow = spec["case_index"] == 0 and spec["shard"] in (0, 1)  # the recorded finding, exercised on every run
     if slow:
         kind = "valid"
@@ -166,6 +176,23 @@ def gen_case(rnd, spec):
             defect = "unknown_tag"
         if forced == "compiled_config":
             defect = "bad_extension"
+        if forced in ("broken_element", "pipeline_not_a_list"):
+            defect = forced
+        elif rnd.random() < 0.12 and fmt == "yaml":
+            defect = rnd.choice(["broken_element", "pipeline_not_a_list"])
+        if defect == "broken_element":
+            # an element that is not the last one, written as a !Tag, whose constructor rejects its (well-formed) settings
+            # with a plain TypeError / KeyError / ValueError when the pipeline is linked
+            victims = [e for e in elems[:-1] if e[0] in SERVICE_TAGS and e[0] != "VSvcWaiter"]
+            if victims:
+                v = rnd.choice(victims)
+                v[2]["broken"] = rnd.choice(["TypeError", "KeyError", "TypeError", "ValueError"])
+                text = "\n".join("  - !%s {%s}" % (c, ", ".join("%s: %s" % kv for kv in kw.items())) if kw else "  - !%s" % c for c, _, kw in elems)
+                text = ("logging: {version: 1}\n" if case["logging"] else "") + "pipeline:\n" + text + "\n"
+            else:
+                defect = "pipeline_not_a_list"
+        if defect == "pipeline_not_a_list":
+            text = ("logging: {version: 1}\n" if case["logging"] else "") + "pipeline: %s\n" % rnd.choice(["~", "5", "", "true", "2.5"])
         if defect == "unknown_section":
             text += "pipelin: []\n"
         elif defect == "missing_pipeline":
@@ -249,6 +276,8 @@ def execute(case, result):
             waiter = any(e[0] == "VSvcWaiter" and e[1] == lb for e in case["elems"])
             if case.get("many"):
                 result.count("services_in_large_injected_configs")
+                if lb == labels[0] and sum(1 for e in case["elems"] if e[0] == "VSvcTrioDeco") > len(case["elems"]) / 2:
+                    result.count("large_configs_of_mostly_trio_services")
             elif waiter:
                 ended_early = [e for e in run.events[: run.events_at_signal] if e["kind"] == "waiter-ended" and e["label"] == lb]
                 if ended_early:
@@ -300,7 +329,8 @@ def run_shard(spec):
 def finish(total, tier):
     need = ["daemons_valid", "daemons_invalid", "daemons_failing", "configs_yaml", "configs_python", "services_checked_trio",
             "services_checked_asyncio", "services_checked_threading", "failing_services_after_start", "valid_with_logging_section", "falsy_services_checked", "private_waiter_services_checked", "services_in_large_injected_configs",
-            "failing_services_with_base_exception_threading", "defect_unknown_extension_with_byte_compiled_config"]
+            "failing_services_with_base_exception_threading", "defect_unknown_extension_with_byte_compiled_config",
+            "defect_broken_element", "defect_pipeline_not_a_list", "large_configs_of_mostly_trio_services"]
     for name in need:
         if not total.counters.get(name) and not total.violations:
             total.inconc("monitor never observed: " + name)
